@@ -43,7 +43,18 @@ AggStopped ==
   /\ Clean /\ E.records = 1
   /\ E.n >= 1 /\ E.n <= E.total /\ E.n = E.m /\ E.n = E.processed
   /\ l' = l + 1
-TraceNext == SelectStopped \/ AggStopped
+\* an interrupt while the joined file is being loaded: the loader stops within ten lines -- the read offset of the joined file (in KiB) ends within a few
+\* read-ahead buffers (LoadSlackKb) of where it stood when the signal was sent, unless the load had all but finished by then (inconclusive: admitted) --,
+\* no input line is processed, nothing is printed by a SELECT (an aggregate prints no table either: no line was consumed), no error, status 0
+LoadSlackKb == 4096
+JoinLoadStopped ==
+  /\ l <= Len(Rec) /\ E.ev = "sigint" /\ E.kind = "joinload"
+  /\ Clean
+  /\ \/ E.kb_at_signal + LoadSlackKb >= E.kb_size                  \* (the signal came too late to tell)
+     \/ /\ E.kb_last <= E.kb_at_signal + LoadSlackKb
+        /\ E.processed = 0 /\ E.records = 0
+  /\ l' = l + 1
+TraceNext == SelectStopped \/ AggStopped \/ JoinLoadStopped
 TraceSpec == TraceInit /\ [][TraceNext]_l
 TraceUnfinished == l <= Len(Rec)
 TrackProgress == TLCSet(1, IF TLCGet(1) < l THEN l ELSE TLCGet(1))
